@@ -191,6 +191,8 @@ class StdoutProxy:
 class StdinProxy:
     def __init__(self, seams, text):
         self._s = seams
+        # the real sys.stdin on POSIX is opened with newline="\n": no translation on read (checked against
+        # a real interpreter: printf 'a\r\nb' | python -c 'print(repr(sys.stdin.read()))' -> 'a\r\nb')
         self._text = text
         self._pos = 0
         self.encoding = "utf-8"
